@@ -29,7 +29,8 @@ PROPS = {
     'C04': {'mc': _mc({'module': 'MC_Frames', 'cfg': 'MC_Frames', 'tier': 'both'}),
             'rule': 'one event per encoder call (frame.marshal of all five kinds, Frame.marshal(), Properties.marshal(), '
                     'by_type, encode_table_value); every byte compared with the TLA+ reference encoder'},
-    'C14': {'mc': _mc({'module': 'MC_Catalog', 'cfg': 'MC_Catalog', 'tier': 'both'}),
+    'C14': {'mc': _mc({'module': 'MC_Catalog', 'cfg': 'MC_Catalog', 'tier': 'both'},
+                      {'module': 'MC_Rpc', 'cfg': 'MC_Rpc', 'tier': 'both', 'actions': ['Request', 'Reply', 'Async']}),
             'rule': 'exhaustive static trace: one event per class reachable through INDEX_MAPPING (64), one for '
                     'Basic.Properties, one per AMQP class, one for the key set; compared field by field with Catalog.tla',
             'exhaustive': True, 'shards': lambda t: 1},
